@@ -180,7 +180,8 @@ func (p *C14Payload) renderNoisy(withFault bool) (string, int) {
 			emitFault()
 		}
 		if e.Section != cur && e.Section != "" {
-			emit("["+e.HdrDeco+e.Section+e.HdrDeco+"]", e.CRLF)
+			// (blanks in front of and behind a header line, as around any other line)
+			emit(e.Pre+"["+e.HdrDeco+e.Section+e.HdrDeco+"]"+e.Post, e.CRLF)
 			cur = e.Section
 		}
 		for _, n := range e.Noise {
@@ -421,7 +422,7 @@ func genC14Fault(r *Rng, d *DeclSpec, p *C14Payload) *C14Fault {
 	}
 	switch f.Kind {
 	case "malformed-header":
-		f.Text = r.Pick([]string{"[Application Options", "[", "[x]y", "[ Net", "[a]]x", "[Application Options] ; trailing"})
+		f.Text = r.Pick([]string{"[Application Options", "[", "[ Net", "[Application Options"}) // (an unclosed bracket only: what may follow a closing bracket is for the library to decide)
 	case "empty-section":
 		f.Text = r.Pick([]string{"[]", "[ ]", "[\t]", "  [   ]  "})
 	case "no-equals":
